@@ -910,13 +910,36 @@ def judge(ops, results, views, clone_ref=None):
     return None
 
 
-def judge_handles(ops, tmpdir=None):
-    """ORACLE for histories with held proxy handles (no model): no internal error; every edit through a live handle
-    is effective at the root (Impl._handle_op); a clone - whenever made, and once more for every object at the end
-    - reads like its original.  Returns why or None."""
+def op_txt_cache(op):
+    """protocol text for the CACHED model (drv_config lines starting with `C `): handles are explicit"""
+    if op["op"] == "HOLD":
+        return "HOLD %s %s" % (op["h"], path_txt(op.get("path", [])))
+    if op["op"] == "HOP":
+        return "HOP %s %s" % (op["h"], op_txt(dict(op["sub"], path=[])))
+    return op_txt(op)
+
+
+def line_cache(ops):
+    return "C " + ";".join("%d:%s" % (op.get("o", 0), op_txt_cache(op)) for op in ops)
+
+
+def judge_handles(ops, tmpdir=None, rows=None):
+    """ORACLE for histories with held proxy handles: no internal error; every edit through a live handle is
+    effective at the root (Impl._handle_op); results / effects are dict-like (Impl._dict_like; failures of handles
+    obtained before a re-merge are tagged = known finding); a clone - whenever made, and once more for every
+    object at the end - reads like its original.  Returns why or None.  `rows` (a list) receives, per operation run,
+    the result and the views of all objects in the driver's format (correspondence with the cached Lean model)."""
     impl = Impl(tmpdir)
     for op in ops:
         r = impl.apply(op)
+        if rows is not None:
+            vs = []
+            for c in impl.objs:
+                try:
+                    vs.append(canon(plain(c)))
+                except Exception as e:
+                    vs.append("!" + errname(e))
+            rows.append("#".join([r] + vs))
         if is_internal(r):
             return "internal error %s from %s" % (r, op_txt(op))
         if impl.violation:
